@@ -192,6 +192,8 @@ def families():
                                             if isinstance(d, dict) and isinstance(d.get('f'), dict) else d), kind='dict'),
         # the answer (hence the fault, which quotes the offending text) travels in another family than the request
         Family('http_xmlout', HttpRpc, XmlDocument, None, kind='flat', out='xml'),
+        # HttpRpc(strict_arrays=True): array indexes are checked (no gaps), a refused index is a Client fault like any other
+        Family('http_strict', lambda **kw: HttpRpc(strict_arrays=True, **kw), JsonDocument, None, kind='flat', out='http'),
         Family('json_soapout', JsonDocument, Soap11, 'application/json', dump=lambda d: json.dumps(d).encode(), kind='dict', out='soap11'),
         Family('yaml_httpout', YamlDocument, HttpRpc, 'text/yaml', dump=lambda d: yaml.safe_dump(d).encode(), kind='dict', out='httprpc'),
         # the JSON envelope protocol JsonRpc('spyne'): {"ver": 1, "head": ..., "body": {method: arguments}} (answers in plain JSON)
@@ -275,6 +277,8 @@ def corpus(fam, quick):
         for q in ['c=1', 'c.i.x=1', 'cs[x].i=1', 'cs[-1].i=1', 'cs[99999999999999999999].i=1', 'cs[0]=1', 'c.arr[0]=1',
                   'c.m[1]=1', 'n=1&n=2', '=1', '&&&', 'c.i', 'cs[0].i[0]=1', 'cs[1].i=1&cs[0].i=2', '%ff=1', 'n=%ff',
                   'c.s=%ud800', 'cs[0].i=1&cs[0].i=2', 'cs[].i=1', 'cs[0.i=1', 'cs]0[.i=1', 'c..i=1', '.=1', 'c.=1',
+                  'cs[1].i=1', 'cs[3].i=7', 'cs[0].i=1&cs[2].i=2', 'cs[2].i=1&cs[1].i=2&cs[0].i=3', 'cs[0].i=1&cs[1].i=2&cs[3].i=3', 'cs[10].i=1&cs[2].i=2',
+                  'cs[1].i=1&cs[1].i=2', 'cs[00].i=1&cs[01].i=2', 'cs[+1].i=1', 'cs[1 ].i=1', 'cs[1e0].i=1', 'cs[١].i=1'.encode('utf8').decode('latin1'),
                   'n=1;n=2', 'n', 'cs[0][1].i=1', 'c.arr=x', 'c.m=x&c.m=1', 'zzz=1', 'c.zzz=1', 'n=5&' * 50,
                   # an array of arrays has no spelling in this notation: whatever is tried is refused or ignored, not a crash
                   'c.aa=1&c.aa=2', 'c.aa[0].integer=1&c.aa[0].integer=2&c.aa[1].integer=3', 'c.aa[0]=1', 'c.aa.integer=1', 'c.aa[0][1]=1',
